@@ -11,19 +11,33 @@ def prove_nonneg(E, constraints, maxlam=2):
     c = sym.const_value(E)
     if c is not None:
         return c >= 0
-    cons = [k for k in constraints if sym.const_value(k) is None]
+    cons = []
+    for k in constraints:
+        if sym.const_value(k) is None and k not in cons:
+            cons.append(k)
     # only constraints sharing atoms with E (transitively) matter; keep the search small
-    if len(cons) > 7:
-        ea = sym.atoms(E)
-        cons = [k for k in cons if sym.atoms(k) & ea][:7]
-    for lam in itertools.product(range(maxlam + 1), repeat=len(cons)):
-        t = E
-        for l, k in zip(lam, cons):
-            if l:
-                t = sym.sub(t, sym.mul(I(l), k))
-        cv = sym.const_value(t)
-        if cv is not None and cv >= 0:
-            return True
+    rel = set(sym.atoms(E))
+    changed = True
+    keep = []
+    while changed:
+        changed = False
+        for k in cons:
+            if k not in keep and sym.atoms(k) & rel:
+                keep.append(k)
+                rel |= sym.atoms(k)
+                changed = True
+    cons = keep[:10]
+    for top in (1, maxlam):
+        for lam in itertools.product(range(top + 1), repeat=len(cons)):
+            t = E
+            for l, k in zip(lam, cons):
+                if l:
+                    t = sym.sub(t, sym.mul(I(l), k))
+            cv = sym.const_value(t)
+            if cv is not None and cv >= 0:
+                return True
+        if len(cons) > 8:
+            break
     return False
 
 
